@@ -5,6 +5,7 @@ function on every byte string: a Go panic is the explicit outcome `reject` (the 
 it and disconnects), so "never crashes" is totality + the session-level theorems of C02/C07.
 -/
 import Teleport.Lemmas.RawRead
+import Teleport.Lemmas.HttpRead
 import Teleport.Gen.Frames
 namespace Teleport
 namespace C06
@@ -216,15 +217,19 @@ theorem C06_raw_read_shape :
     Gen.frames_raw_minus_guard = ["$d < 0 || $1 < 0"] := by
   decide
 
-/-- **What is NOT bounded by a size check, by name** (so that a new unbounded read cannot appear
-    silently): `httproto.readLine` appends byte by byte until a newline (a header line has no length
-    limit; DESIGN §5 C06), `httproto.unpack` accumulates the header lines when the debug option
-    `printMessage` is on, and the two websocket sub-protocols `ReadAll` one websocket frame (bounded by
-    the websocket layer's `MaxPayloadBytes`, outside this repository's protocol code). -/
+/-- **What is NOT sized by an announced length, by name** (so that a new unbounded read cannot appear
+    silently): `httproto.readLine` appends byte by byte until a newline, and since the head-limit
+    repair that write is dominated, inside the loop, by a comparison with the read limit whose branch
+    returns an error (the row carries `limit-compare`; the model is `HttpP.readLine`, the bound
+    `C06_http_buffer_bound` below; before the repair the row was plain `loop:Write` and a line had no
+    length limit: `C06_http_readline_old_unbounded_witness`); `httproto.unpack` accumulates the header
+    lines — each of them already charged by `readLine` — when the debug option `printMessage` is on;
+    the two websocket sub-protocols `ReadAll` one websocket frame (bounded by the websocket layer's
+    `MaxPayloadBytes`, outside this repository's protocol code). -/
 theorem C06_unbounded_growth_known :
     Gen.frames_missing = [] ∧
     Gen.frames_unbounded_growth = [
-      ("http", "readLine", "loop:Write"),
+      ("http", "readLine", "loop:Write:limit-compare"),
       ("http", "unpack", "loop:append"),
       ("ws-json", "Unpack", "ReadAll"),
       ("ws-pb", "Unpack", "ReadAll")] := by
@@ -237,6 +242,129 @@ theorem C06_read_loop_recovers :
     Gen.frames_missing = [] ∧
     Gen.frames_readloop_landmarks = ["defer:recover", "loop:ReadMessage"] := by
   decide
+
+-- BEGIN http read
+/-! ## httproto (`proto/httproto/httproto.go`, modelled in Model/HttpProto as repaired by the head-limit
+fix: `readLine` and `unpack` charge first line + header lines + body against the read limit).
+`HttpP.unpack` is a total function of (environment, read limit, input): the environment holds the
+registered transfer filters, the gzip filter and `encoding/json` as arbitrary functions, so every
+statement below holds whatever those libraries do. `Read.hi` is the largest number of bytes buffered
+for the message at any moment (head bytes already charged + the line or body buffer being filled),
+`Read.ask` the largest single read request, `Read.left` the input not consumed on return. -/
+
+/-- **Buffer bound, all inputs.** For every byte string, read limit and environment, `Unpack` never
+    holds more than `max limit 5` bytes of one message (5 = the fixed prefix read before any check):
+    first line + header lines + the line being read + the body together stay within the read limit.
+    No line-length assumption: an endless line or endless header lines are refused. -/
+theorem C06_http_buffer_bound (env : HttpP.Env) (limit : Nat) (inp : Bytes) :
+    (HttpP.unpack env limit inp).hi ≤ max limit 5 :=
+  (HttpP.unpack_ok env limit inp).hi_le
+
+/-- **Size check before allocation.** The largest read request (the 5-byte prefix, single bytes,
+    the `ChangeLen(bodySize)` body buffer) never exceeds `max limit 5`: a `Content-Length` larger than
+    what the head left of the limit is never turned into a buffer. -/
+theorem C06_http_read_request_bound (env : HttpP.Env) (limit : Nat) (inp : Bytes) :
+    (HttpP.unpack env limit inp).ask ≤ max limit 5 :=
+  (HttpP.unpack_ok env limit inp).ask_le
+
+/-- **Consumed ≤ input.** What is left unread on return is a suffix of the input: `Unpack` consumes a
+    prefix, never more than it was given (and `consumed + left = input length`). -/
+theorem C06_http_consumed_prefix (env : HttpP.Env) (limit : Nat) (inp : Bytes) :
+    (∃ pre, inp = pre ++ (HttpP.unpack env limit inp).left) ∧
+    (HttpP.unpack env limit inp).consumed inp + (HttpP.unpack env limit inp).left.length = inp.length := by
+  obtain ⟨pre, hp⟩ := (HttpP.unpack_ok env limit inp).suffix
+  refine ⟨⟨pre, hp⟩, ?_⟩
+  have : (HttpP.unpack env limit inp).left.length ≤ inp.length := by
+    conv => rhs; rw [hp]
+    simp
+  unfold HttpP.Read.consumed; omega
+
+/-- **No wedge.** An `eof` outcome means every available byte was consumed — the reader waits only
+    while the input is not exhausted — unless the transfer pipe itself reported an EOF error
+    (compress/gzip on a truncated stream inside a complete message: `Unpack` hands that error on). -/
+theorem C06_http_eof_exhausts (env : HttpP.Env) (limit : Nat) (inp : Bytes)
+    (h : (HttpP.unpack env limit inp).out = .eof) :
+    (HttpP.unpack env limit inp).left = [] ∨ ∃ p b, env.xeof p b = true :=
+  (HttpP.unpack_ok env limit inp).eof_all h
+
+/-- with a transfer pipe that never reports EOF errors, `eof` = input exhausted. -/
+theorem C06_http_eof_exhausts_plain (env : HttpP.Env) (limit : Nat) (inp : Bytes)
+    (hx : ∀ p b, env.xeof p b = false) (h : (HttpP.unpack env limit inp).out = .eof) :
+    (HttpP.unpack env limit inp).left = [] := by
+  rcases C06_http_eof_exhausts env limit inp h with h | ⟨p, b, hb⟩
+  · exact h
+  · rw [hx] at hb; cases hb
+
+/-- **Every input is classified**: message, EOF, size error, or another error (a Go panic — the gzip
+    filter's nil reader, the nil filter of an unknown name — is `reject`); the model has no fifth
+    outcome and no fuel to run out of. -/
+theorem C06_http_outcome_classified (env : HttpP.Env) (limit : Nat) (inp : Bytes) :
+    (∃ m rest, (HttpP.unpack env limit inp).out = .ok m rest) ∨ (HttpP.unpack env limit inp).out = .eof
+    ∨ (HttpP.unpack env limit inp).out = .size ∨ (∃ why, (HttpP.unpack env limit inp).out = .reject why) := by
+  cases (HttpP.unpack env limit inp).out with
+  | ok m rest => exact Or.inl ⟨m, rest, rfl⟩
+  | eof => exact Or.inr (Or.inl rfl)
+  | size => exact Or.inr (Or.inr (Or.inl rfl))
+  | reject w => exact Or.inr (Or.inr (Or.inr ⟨w, rfl⟩))
+
+/-- **Oversize Content-Length refused before allocation**: when the announced body does not fit into
+    what the head left of the limit, the blank line is the last byte consumed, nothing is requested
+    from the reader and nothing is buffered for the body. -/
+theorem C06_http_oversize_body_refused (env : HttpP.Env) (limit : Nat) (kind : HttpP.Kind) (st : HttpP.HSt)
+    (used hi : Nat) (r : Bytes) (h0 : 0 < st.bodySize) (h : st.bodySize + (used : Int) > (limit : Int)) :
+    isSize (HttpP.finishBody env limit kind st used hi r).out = true ∧
+    (HttpP.finishBody env limit kind st used hi r).left = r ∧
+    (HttpP.finishBody env limit kind st used hi r).ask = 5 ∧
+    (HttpP.finishBody env limit kind st used hi r).hi = hi := by
+  unfold HttpP.finishBody
+  have h1 : ¬ st.bodySize ≤ 0 := by omega
+  simp only [h1, if_false, h, if_true]
+  refine ⟨by first | rfl | trivial, by first | rfl | trivial, by first | rfl | trivial, by first | rfl | trivial⟩
+
+/-- **A head that never ends is refused after `limit + 1` bytes**: on an input without any line feed
+    the outcome is EOF (input shorter than the limit) or the size error, and at most `max limit 5 + 1`
+    bytes are consumed — the byte that would take the message to the limit is read and refused. -/
+theorem C06_http_endless_line_refused (env : HttpP.Env) (limit : Nat) (inp : Bytes) (h : ∀ c ∈ inp, c ≠ 10) :
+    ((HttpP.unpack env limit inp).out = .eof ∨ (HttpP.unpack env limit inp).out = .size) ∧
+    (HttpP.unpack env limit inp).consumed inp ≤ max limit 5 + 1 :=
+  HttpP.unpack_nolf env limit inp h
+
+/-- **Before the repair** `readLine` had no bound: for every `n`, a line of `n` bytes without a line
+    feed was buffered entirely (`n` bytes, whatever the read limit), which is the defect
+    `c06:http:head-exceeds-read-limit`; the repaired `readLine` refuses the same input after buffering
+    at most `limit - used` bytes. -/
+theorem C06_http_readline_old_unbounded_witness (n limit used : Nat) :
+    HttpP.readLineOld (List.replicate n 97) [] = .eof n ∧
+    (match HttpP.readLine limit used (List.replicate n 97) [] with
+     | .line _ _ _ => False
+     | .eof k => used + k ≤ max limit used
+     | .over k _ => used + k ≤ max limit used) := by
+  refine ⟨by simpa using HttpP.readLineOld_replicate n 97 (by decide) [], ?_⟩
+  have hs := HttpP.readLine_spec limit used (List.replicate n 97) [] (by simp only [List.length_nil]; omega)
+  have hn := HttpP.readLine_nolf limit used (List.replicate n 97) [] (by
+    intro c hc; rw [List.mem_replicate] at hc; rw [hc.2]; decide)
+  revert hs hn
+  cases HttpP.readLine limit used (List.replicate n 97) [] with
+  | line ln k rest => intro _ hn; exact hn
+  | eof k => intro hs _; exact hs
+  | over k rest => intro hs _; exact hs.1
+
+/-! Non-vacuity (concrete evaluations, limit 24): `POST /a HTTP/1.1` + `Content-Length: 99` is
+refused on the size check with the 3 body bytes unread; 30 bytes without a line feed are refused
+after 25 of them; the old reader buffers all 30. -/
+example : (HttpP.unpack HttpP.envNone 48
+    ([80, 79, 83, 84, 32, 47, 97, 32, 72, 84, 84, 80, 47, 49, 46, 49, 13, 10] ++
+     [67, 111, 110, 116, 101, 110, 116, 45, 76, 101, 110, 103, 116, 104, 58, 32, 57, 57, 13, 10, 13, 10, 1, 2, 3])).left = [1, 2, 3] := by
+  decide
+example : (HttpP.unpack HttpP.envNone 48
+    ([80, 79, 83, 84, 32, 47, 97, 32, 72, 84, 84, 80, 47, 49, 46, 49, 13, 10] ++
+     [67, 111, 110, 116, 101, 110, 116, 45, 76, 101, 110, 103, 116, 104, 58, 32, 57, 57, 13, 10, 13, 10, 1, 2, 3])).hi = 35 := by
+  decide
+example : (HttpP.unpack HttpP.envNone 24 (List.replicate 30 97)).consumed (List.replicate 30 97) = 25 := by decide
+example : (HttpP.unpack HttpP.envNone 24 (List.replicate 30 97)).hi = 24 := by decide
+example : HttpP.readLineOld (List.replicate 30 97) [] = .eof 30 := (C06_http_readline_old_unbounded_witness 30 24 5).1
+example : (0 : Int) < 99 ∧ (99 : Int) + (34 : Nat) > (48 : Nat) := by decide
+-- END http read
 
 end C06
 end Teleport
